@@ -239,6 +239,7 @@ def analyzeLevel (c : Cat) : Nat → List (String × List ColInfo) → List Scop
       | "SelectStmt" => (stmt.get "FromClause").items
       | "UpdateStmt" => [stmt.get "Relation"] ++ (stmt.get "FromClause").items
       | "InsertStmt" | "DeleteStmt" => [stmt.get "Relation"]
+      | "TruncateStmt" => (stmt.get "Relations").items
       | _ => []
     let (scope, fromPairs) ← fromList.foldlM (fun (st : Scope × List Pairing) it => do
       let r ← fromItem fuel it
